@@ -405,19 +405,31 @@ def _routing(col, rule="C08.R6"):
     sel = S.mcall(tab, "_get_row_indices", rows)
     ok, facts = True, []
     n_tuple = n_single = 0
+    cases = []
     for r in sx.of_kind("return"):
-        cs = sx.conds(r.nid)
+        if r.value[:1] == ("alt",):
+            # single-exit style: one `return result`; each value with the conditions of the assignment it came from
+            node = sx.cfg.nodes[r.nid].ast
+            try:
+                gv = sx.guarded_values(node.value, r.nid) if getattr(node, "value", None) is not None else []
+            except Exception:
+                gv = []
+            if gv:
+                cases.extend((v, tuple(sx.conds(r.nid)) + tuple(cs_)) for v, cs_ in gv)
+                continue
+        cases.append((r.value, tuple(sx.conds(r.nid))))
+    for val, cs in cases:
         tuple_branch = any(c == is_tuple or (c[:1] == ("bool",) and is_tuple in c[2]) for c in cs)
         if tuple_branch:
             n_tuple += 1
-            if r.value != S.mcall(("attr", view, "_data"), "get_indices"):
+            if val != S.mcall(("attr", view, "_data"), "get_indices"):
                 ok = False
-                facts.append(f"a tuple of selectors returns {S.show(r.value)[:80]}")
+                facts.append(f"a tuple of selectors returns {S.show(val)[:80]}")
         else:
             n_single += 1
-            if r.value not in (sel, ("sub", S.fcall(("attr", ("glob", "np"), "arange"), S.fcall("len", tab)), sel)):
+            if val not in (sel, ("sub", S.fcall(("attr", ("glob", "np"), "arange"), S.fcall("len", tab)), sel)):
                 ok = False
-                facts.append(f"a single selector returns {S.show(r.value)[:80]}")
+                facts.append(f"a single selector returns {S.show(val)[:80]}")
     col.add(rule, "Indices.__getitem__#single-selector", ok and n_tuple >= 1 and n_single >= 1, sx.loc(sx.fn),
             "rows.indices[...] resolves through the same selector; slices are expanded over the table length; tuples, on every path, "
             "through _make_view (each selector applied to the rows left by the previous one)", "; ".join(facts))
